@@ -37,6 +37,54 @@ impl SseDecoder {
     //@@ end
 }
 
+// the frame mapper: real text; the text delta of an event is a function of its payload (stand-in: payloads starting with "t:" carry the rest as delta)
+//@@ item crates/rip-provider-openresponses/src/lib.rs struct EventFrameMapper
+pub mod rip_kernel { pub use super::{EventKind, ProviderEventStatus}; }
+fn output_text_delta(parsed: &ParsedEvent) -> Option<String> { parsed.raw.strip_prefix("t:").map(|s| s.to_string()) }
+impl EventFrameMapper {
+    //@@ fn crates/rip-provider-openresponses/src/lib.rs EventFrameMapper::new
+    //@@ end
+    //@@ fn crates/rip-provider-openresponses/src/lib.rs EventFrameMapper::map
+    //@@ end
+    //@@ fn crates/rip-provider-openresponses/src/lib.rs EventFrameMapper::emit_provider_event
+    //@@ end
+    //@@ fn crates/rip-provider-openresponses/src/lib.rs EventFrameMapper::emit
+    //@@ end
+}
+fn mapper_clauses() {
+    // every sequence of <= 4 parsed events over {event, event with text delta, invalid JSON, done}
+    let mk = |k: u8, i: usize| match k {
+        0 => ParsedEvent { kind: ParsedEventKind::Event, event: Some(format!("ev{i}")), raw: format!("{{\"n\":{i}}}"), data: Some(Value { filler: 0 }), errors: vec![], response_errors: vec![] },
+        1 => ParsedEvent { kind: ParsedEventKind::Event, event: None, raw: format!("t:delta{i}"), data: Some(Value { filler: 0 }), errors: vec![], response_errors: vec![] },
+        2 => ParsedEvent { kind: ParsedEventKind::InvalidJson, event: None, raw: format!("oops{i}"), data: None, errors: vec!["bad".to_string()], response_errors: vec![] },
+        _ => ParsedEvent { kind: ParsedEventKind::Done, event: None, raw: "[DONE]".to_string(), data: None, errors: vec![], response_errors: vec![] },
+    };
+    for n in 0..=4usize { for code in 0..4usize.pow(n as u32) {
+        let mut c = code; let kinds: Vec<u8> = (0..n).map(|_| { let k = (c % 4) as u8; c /= 4; k }).collect();
+        let mut m = EventFrameMapper::new("s");
+        let mut frames: Vec<Event> = Vec::new(); let mut text = String::new(); let mut want_text = String::new();
+        let mut problem: Option<String> = None;
+        for (i, k) in kinds.iter().enumerate() {
+            let pe = mk(*k, i);
+            let out = m.map(&pe);
+            let prov: Vec<&Event> = out.iter().filter(|e| matches!(e.kind, EventKind::ProviderEvent { .. })).collect();
+            if prov.len() != 1 || !matches!(out.first().map(|e| &e.kind), Some(EventKind::ProviderEvent { .. })) { problem = Some(format!("event {i}: {} provider-event frames (exactly one, first, expected)", prov.len())); break; }
+            if let EventKind::ProviderEvent { raw, data, event_name, errors, status, .. } = &prov[0].kind {
+                let payload_ok = match pe.kind { ParsedEventKind::Event => raw.is_none() && data.is_some() == pe.data.is_some() && matches!(status, ProviderEventStatus::Event),
+                    ParsedEventKind::Done => raw.as_deref() == Some(pe.raw.as_str()) && data.is_none() && matches!(status, ProviderEventStatus::Done),
+                    ParsedEventKind::InvalidJson => raw.as_deref() == Some(pe.raw.as_str()) && data.is_none() && matches!(status, ProviderEventStatus::InvalidJson) };
+                if !payload_ok || *event_name != pe.event || *errors != pe.errors { problem = Some(format!("event {i}: payload, status, event name or errors changed")); break; } }
+            let deltas: Vec<String> = out.iter().filter_map(|e| match &e.kind { EventKind::OutputTextDelta { delta } => Some(delta.clone()), _ => None }).collect();
+            let want: Vec<String> = output_text_delta(&pe).into_iter().collect();
+            if deltas != want || out.len() != 1 + want.len() { problem = Some(format!("event {i}: derived text frames {:?}, the event's text delta is {:?}", deltas, want)); break; }
+            for d in &deltas { text.push_str(d); } for d in &want { want_text.push_str(d); }
+            frames.extend(out);
+        }
+        if problem.is_none() && !(frames.iter().enumerate().all(|(i, e)| e.seq == i as u64 && e.session_id == "s") && text == want_text) { problem = Some("frames are not numbered 0,1,2,... on the session's stream / derived text is not the concatenation of the deltas".into()); }
+        if let Some(p) = problem { println!("WITNESS {{\"function\": \"EventFrameMapper::map\", \"parsed_event_kinds\": {:?}, \"problem\": {:?}}}", kinds.iter().map(|k| ["event", "event with text delta", "invalid json", "done"][*k as usize]).collect::<Vec<_>>(), p); std::process::exit(0); }
+    } }
+}
+
 fn decode(chunks: &[&str]) -> Vec<(String, String, Option<String>)> {
     let mut d = SseDecoder::new();
     let mut out = Vec::new();
@@ -48,7 +96,7 @@ fn decode(chunks: &[&str]) -> Vec<(String, String, Option<String>)> {
 fn main() {
     let args: Vec<String> = std::env::args().collect();
     let label = args.get(1).cloned().unwrap_or_default();
-    if !label.contains("chunking_invariant") { return; }
+    if !label.contains("chunking_invariant") { mapper_clauses(); return; }
     // streams built from SSE pieces (LF and CRLF variants), cut at every byte position (two chunks) and at every pair of positions for short ones
     let pieces = ["data: {\"a\":1}", "data: {\"b\":", "data: 2}", "event: x", "data: [DONE]", "data: oops", ": c", "", ""];
     let nls = ["\n", "\r\n"];
